@@ -2,3 +2,4 @@ pub mod btor2_ref;
 pub mod bv;
 pub mod expr_eval;
 pub mod sim;
+pub mod smt;
